@@ -48,6 +48,7 @@ type Harness struct {
 	TimeoutMs     map[string]int            `json:"timeout_ms"`
 	MaxSteps      int                       `json:"max_steps"`
 	PanicOK       bool                      `json:"panic_ok"`
+	KeepFuncs     []string                  `json:"keep_funcs"` // functions of black-holed packages that are executed nevertheless (name prefixes)
 	PreemptAtSync bool                      `json:"preempt_at_sync"` // explore a context switch before every mutex Lock/RLock
 	Rewrites      []Rewrite                 `json:"rewrites"`
 	Redirect      map[string]string         `json:"redirect"`
@@ -463,7 +464,7 @@ func runHarness(spec *Spec, h *Harness, tier string, workers int, verbose bool, 
 	}
 	mkcfg := func() interp.Config {
 		return interp.Config{RTPath: repoMod + "/verifrt", Blackhole: append(append([]string(nil), defaultBlackhole...), h.Blackhole...),
-			NoModelCache: os.Getenv("VERIF_NOMODEL") != "" || h.NoModelCache, SkipFuncs: skip, Models: models, Redirect: redirect, MaxSteps: h.MaxSteps, PanicOK: h.PanicOK, PreemptAtSync: h.PreemptAtSync, Verbose: verbose, Params: hr.params}
+			NoModelCache: os.Getenv("VERIF_NOMODEL") != "" || h.NoModelCache, SkipFuncs: skip, Models: models, Redirect: redirect, MaxSteps: h.MaxSteps, PanicOK: h.PanicOK, PreemptAtSync: h.PreemptAtSync, KeepFuncs: h.KeepFuncs, Verbose: verbose, Params: hr.params}
 	}
 	runJob := func(prefix []int, discover int) (*jobResult, error) {
 		sol, err := smt.New(hr.solver, timeout)
